@@ -179,10 +179,36 @@ def _check_append_tg(case):
 
 
 def _check_tg_shift(case):
-    tiers, lo, hi, off = case
+    tiers, lo, hi, off = case[:4]
     tg = Textgrid(lo, hi)
     for kind, name, entries in tiers:
         tg.addTier((IT if kind == "I" else PT)(name, list(entries), lo, hi))
+    if len(case) > 4 and tiers:
+        # a HISTORY on this very textgrid first: a priming read, then a mutator that exchanges a tier without changing the tier count;
+        # the shift must work on the tiers the textgrid holds NOW
+        prime, mut = case[4]
+        if prime == "tiers":
+            call(lambda: [t.name for t in tg.tiers])
+        elif prime == "validate":
+            call(tg.validate, "silence")
+        elif prime == "shift":
+            call(tg.editTimestamps, 0.5, "silence")
+        elif prime == "save":
+            import os as _os
+            from mc.props.common import scratch_dir as _sd
+            call(tg.save, _os.path.join(_sd(), "c09-prime.TextGrid"), "short_textgrid", True)
+        tiers = list(tiers)
+        if mut == "rename":
+            call(tg.renameTier, tiers[0][1], "renamed")
+            tiers[0] = (tiers[0][0], "renamed", tiers[0][2])
+        elif mut == "replace":
+            call(tg.replaceTier, tiers[0][1], IT("rep", [(lo, lo + 1.0, "R")], lo, hi), "silence")
+            tiers[0] = ("I", "rep", ((lo, lo + 1.0, "R"),))
+        else:
+            call(tg.removeTier, tiers[-1][1])
+            call(tg.addTier, PT("fresh", [(lo + 0.5, "F")], lo, hi), 0)
+            tiers = [("P", "fresh", ((lo + 0.5, "F"),))] + tiers[:-1]
+        tiers = tuple(tiers)
     models = []
     anyleft = False
     glo, ghi = F(lo), F(hi)
@@ -365,6 +391,13 @@ def parts(tier):
                       (("P", "p", ()),), (("I", "a", ()),)):
             for off in OFFS:
                 yield (tiers, 0.0, 4.0, off)
+        # a history on the textgrid before the shift (prime, exchange a tier, shift)
+        for tiers in ((("I", "a", D.labelled(((0.0, 1.0), (2.0, 3.0)))), ("P", "p", D.labelled_points((1.0, 3.0)))),
+                      (("P", "p", D.labelled_points((2.0,))), ("I", "a", D.labelled(((1.0, 4.0),))), ("I", "b", ()))):
+            for prime in ("tiers", "validate", "shift", "save", "none"):
+                for mut in ("rename", "replace", "remove-add"):
+                    for off in (-1.0, 0.5, 3.0):
+                        yield (tiers, 0.0, 4.0, off, (prime, mut))
 
     ps.append(InputPart("shift-textgrid", gen_tgshift, _check_tg_shift,
                         rule="3-tier textgrids (incl. empty tiers) x offsets x 3 modes: tier-wise shift model, span hull, reporting",
